@@ -14,6 +14,10 @@ EXPLANATION = (
     "change_password every path to Ok clears the cache (or the cache lock is poisoned, which makes it unreadable); (5) "
     "SALT-SYMMETRY — the salt stored in the header is the salt given to the KDF, on both sides."
     ' (6) STORE-DURABLE — every Ok of store_master_seed, and every fill of the key cache in it, lies behind the Ok edge of encrypt_and_store.'
+    ' (7) KDF-FUNCTION — the key-derivation routine (the function of this file that calls Argon2 hash_password_into) returns a key only '
+    'behind the Ok edge of that call, which is given the password parameter and the salt parameter: the key is a function of '
+    '(password, salt) on every path, so the salt written to the header is the salt the key was made with (no derived-key cache '
+    'keyed by less than both).'
 )
 NOT_DECIDED = "byte-level tampering (trusted: ChaCha20-Poly1305 authentication), Argon2 itself, fsync durability of the temp file"
 ASSUMPTIONS = ["ChaCha20Poly1305Cipher::decrypt fails on any altered ciphertext/nonce", "rename is atomic"]
@@ -318,3 +322,55 @@ def run(ctx):
                 'holds material that is not on disk' % early[0].ln if early else 'no key_cache insert found in store_master_seed (anchor)'),
                entry=MGR + '::store_master_seed')
     ctx.floor('STORE-DURABLE', 2)
+
+    # ---- 7. the derived key is a function of (password, salt) on every path
+    # SALT-SYMMETRY compares what is *handed to* the KDF routine with what is written to the header; that is only meaningful if
+    # the routine's result really depends on both arguments on every path (a derived-key cache indexed by the password alone
+    # hands out a key made with an earlier salt: the file is then encrypted under a key its own header cannot reproduce).
+    kroots = sorted({b.root for b in bodies if b.calls(r'::hash_password_into$')})
+    if not kroots:
+        ctx.anchor_fail('KDF-FUNCTION', 'a function of %s calling Argon2::hash_password_into' % FILE)
+    for kr in kroots:
+        kb = prog.inl(kr)
+        ctx.touch(kb, len(kb.calls()))
+        hs = kb.calls(r'::hash_password_into$')
+        oks = []
+        okin = True
+        why = []
+        for h in hs:
+            te = F.try_edges(kb, h)
+            if te and te[0] is not None:
+                oks.append(te[0])
+            ptys = [[kb.local_ty(x.a) for x in kb.expr(a).walk() if x.k == 'param' and x.a < 1000] for a in h.args[1:3]]
+            okp = len(ptys) == 2 and any('SecureString' in t or 'str' in t for t in ptys[0]) and any('[u8' in t for t in ptys[1])
+            if not okp:
+                okin = False
+                why.append('line %s: password / salt arguments are %s / %s' % (h.ln, kb.expr(h.args[1]).show()[:60], kb.expr(h.args[2]).show()[:60]))
+        ctx.ob('KDF-FUNCTION', 'kdf-inputs@%s' % kr, bool(hs) and okin, kb.where(hs[0].ln if hs else None),
+               'hash_password_into is given the password parameter and the salt parameter of %s' % kr.rsplit('::', 1)[-1] if okin else
+               'hash_password_into is not fed from the password and salt parameters: ' + '; '.join(why), entry=kr)
+        nret = 0
+        seen = {}
+        for d in kb.defs().get(0, []):
+            kind, bb, si, th = d
+            if kind == 'c':
+                cs = F.CallSite(kb, bb, th)
+                if 'from_residual' in cs.callee:
+                    continue
+                desc, ln = cs.short(), cs.ln
+            else:
+                r = th['r']
+                if r['k'] == 'agg' and r.get('var') == 'Err':
+                    continue
+                desc, ln = ('Ok' if r['k'] == 'agg' else 'value'), th.get('ln')
+            nret += 1
+            seen[desc] = seen.get(desc, 0) + 1
+            dom = any(kb.dominates(o, bb) for o in oks)
+            ctx.ob('KDF-FUNCTION', 'key-return:%s#%d@%s' % (desc, seen[desc], kr), dom, kb.where(ln),
+                   'the key returned at line %s lies behind the Ok edge of hash_password_into(password, salt)' % ln if dom else
+                   'a key is returned at line %s without passing hash_password_into(password, salt) on that path: the result is not a function of the '
+                   'salt argument there (a key made for another salt can be handed out, and the file written under it cannot be opened with the salt in its header)' % ln,
+                   entry=kr)
+        if not nret:
+            ctx.anchor_fail('KDF-FUNCTION', 'a non-error return in %s' % kr)
+    ctx.floor('KDF-FUNCTION', 2)
